@@ -93,10 +93,10 @@ fn gen_c16(r: &mut Rng) -> Vec<Op> {
     let maxl = max_len(r);
     let precondition_rate = if r.chance(1, 4) { 3 } else { 0 };
     // swarm: a subset of kinds per run
-    let boxable = &DstKind::ALL[..DstKind::BOXABLE];
+    let boxable: Vec<DstKind> = DstKind::ALL.iter().copied().filter(|k| k.boxable()).collect();
     let mut kinds: Vec<DstKind> = boxable.iter().copied().filter(|_| r.chance(1, 2)).collect();
     if kinds.is_empty() {
-        kinds.push(*r.pick(boxable));
+        kinds.push(*r.pick(&boxable));
     }
     let w_parsed = if r.chance(1, 2) { r.range(1, 3) } else { 0 };
     let discipline = r.below(4); // 0 lifo, 1 fifo, 2 random, 3 hold to end
@@ -138,10 +138,11 @@ fn gen_c16(r: &mut Rng) -> Vec<Op> {
             }
             // how the caller's slices lie in memory: separate buffers, pieces of
             // one buffer (adjacent), overlapping windows, the same slice repeated
-            let alias = match r.below(8) {
+            let alias = match r.below(10) {
                 0 => 1,
                 1 => 2,
                 2 => 3,
+                3 => 4,
                 _ => 0,
             };
             ops.push(Op::new(OpKind::NewBoxed, vec![dst, kind as u64, r.scalar(32, 1), r.below(4), r.scalar(32, 2), alias], slices));
@@ -425,7 +426,7 @@ pub fn directed(prop: Prop) -> Vec<Trace> {
                     }
                 }
             }
-            for kind in DstKind::ALL.into_iter().take(DstKind::BOXABLE) {
+            for kind in DstKind::ALL.into_iter().filter(|k| k.boxable()) {
                 let (min, div) = kind.rule();
                 let lens: Vec<usize> = if div == 1 { (0..=9).map(|j| min + j).collect() } else { (0..=3).map(|j| min + j * div).collect() };
                 for len in lens {
